@@ -24,7 +24,7 @@ var zkPath = d2.UrisPath(cluster)
 // ---------- events ----------
 
 type Event struct {
-	Kind string `json:"kind"` // addA addB del malformed weightless emptyweights badurl jsonnull emptydata root svc1 svc2 svcbad svcnil svcwrongpath
+	Kind string `json:"kind"` // addA addB addZ del malformed weightless emptyweights badurl jsonnull emptydata root svc1 svc2 svcbad svcnil svcwrongpath
 	Node int    `json:"node"` // 1..3 for node events
 }
 
@@ -55,6 +55,11 @@ func weightsJSON(w map[string]float64) string {
 	return `{"weights":{` + strings.Join(parts, ",") + `},"clusterName":"C","uriSpecificProperties":{},"partitionDesc":{}}`
 }
 
+// payloadZ: a host that announces itself with weight 0 on every URL (drained), a well-formed announcement
+func payloadZ(n int) map[string]float64 {
+	return map[string]float64{fmt.Sprintf("https://h%dz:443", n): 0, fmt.Sprintf("http://h%dz:80", n): 0}
+}
+
 func (e Event) tree() d2.TreeCacheEvent {
 	p := fmt.Sprintf("%s/n%d", zkPath, e.Node)
 	data := func(s string) *[]byte { b := []byte(s); return &b }
@@ -63,6 +68,8 @@ func (e Event) tree() d2.TreeCacheEvent {
 		return d2.TreeCacheEvent{Path: p, Data: data(weightsJSON(payloadA(e.Node)))}
 	case "addB":
 		return d2.TreeCacheEvent{Path: p, Data: data(weightsJSON(payloadB(e.Node)))}
+	case "addZ":
+		return d2.TreeCacheEvent{Path: p, Data: data(weightsJSON(payloadZ(e.Node)))}
 	case "del":
 		return d2.TreeCacheEvent{Path: p, Data: nil}
 	case "malformed":
@@ -113,6 +120,8 @@ func (m *model) apply(e Event) {
 		m.nodes[k] = payloadA(e.Node)
 	case "addB":
 		m.nodes[k] = payloadB(e.Node)
+	case "addZ":
+		m.nodes[k] = payloadZ(e.Node)
 	case "del":
 		delete(m.nodes, k)
 	case "svc1":
@@ -290,7 +299,7 @@ func partA(a *hcli.Args, rep *report.Report) {
 		maxLen int
 	}
 	core := append(nodeEvents([]string{"addA", "addB", "del", "malformed", "weightless"}), Event{"root", 0})
-	wide := append(nodeEvents([]string{"addA", "addB", "del", "malformed", "weightless", "emptyweights", "badurl", "jsonnull", "emptydata", "wrongtype"}), Event{"root", 0})
+	wide := append(nodeEvents([]string{"addA", "addB", "addZ", "del", "malformed", "weightless", "emptyweights", "badurl", "jsonnull", "emptydata", "wrongtype"}), Event{"root", 0})
 	fams := []fam{{"uri-histories-core16", core, 4}, {"uri-histories-wide31", wide, 3}}
 	if a.Thorough() {
 		fams = []fam{{"uri-histories-core16", core, 6}, {"uri-histories-wide31", wide, 4}}
@@ -514,7 +523,7 @@ func keys(m map[string]bool) []string {
 }
 
 func partB(a *hcli.Args, rep *report.Report) {
-	events := append(nodeEvents([]string{"addA", "addB", "del", "malformed", "weightless"}),
+	events := append(nodeEvents([]string{"addA", "addB", "addZ", "del", "malformed", "weightless"}),
 		Event{"root", 0}, Event{"svc1", 0}, Event{"svc2", 0}, Event{"svcbad", 0}, Event{"svcnil", 0}, Event{"svcwrongpath", 0})
 	maxLen := 3
 	if a.Thorough() {
